@@ -233,6 +233,35 @@ partial def loop (wt : WidthTable) (h : IO.FS.Stream) (d : DState) : IO Unit := 
     let o ← IO.getStdout
     o.putStrLn (hexOfBytes st.ansiEscape); o.flush
     loop wt h d
+  | ["grun", toks] =>
+    -- grapheme mode: one printable run as tokenised by the harness (uniseg): `hex:width:merge,…`.
+    -- Every cluster is written with `Scr.put` (merge fragments with `Scr.merge`), exactly the
+    -- functions the rune-mode tokens use.
+    let parts := (toks.splitOn ",").filterMap fun t =>
+      match t.splitOn ":" with
+      | [hx, w, m] => (bytesOfHex hx).map fun b => (b, w.toNat!, m == "1")
+      | _ => none
+    let allBytes := parts.flatMap fun (b, _, _) => b
+    if d.pending.take allBytes.length ≠ allBytes then
+      (← IO.getStdout).putStrLn s!"X framing grapheme run does not match the pending input consumed={d.consumed}"
+    let mut t := d.t
+    let mut tags : List String := []
+    for (b, w, m) in parts do
+      let sc := t.scr
+      if m then
+        t := t.setScr (sc.merge b)
+        tags := tags ++ ["tm"]
+      else
+        let w1 := if max w 1 > sc.w then 1 else max w 1
+        let s1 := if sc.cx + w1 > sc.w then
+                    (if sc.wrap then ({ sc with cx := 0 } : Scr).lineDown else { sc with cx := sc.w - w1 })
+                  else sc
+        let k := t.pol == .keep && contAt (s1.row s1.cy) s1.cx
+        t := t.setScr (sc.put t.pol b w)
+        tags := tags ++ [if k then "tK" else "t"]
+    (← IO.getStdout).putStrLn ("T " ++ ",".intercalate tags)
+    let d' ← printObs { d with t := t, pending := d.pending.drop allBytes.length, consumed := d.consumed + allBytes.length } [] false
+    loop wt h d'
   | ["end"] => loop wt h d
   | [] => loop wt h d
   | _ => IO.println "bad-op"; (← IO.getStdout).flush; loop wt h d
